@@ -18,7 +18,7 @@ import numpy as np
 from .. import sse
 
 LEVEL = "model_checking"
-RULE = ("all weak orderings (dense rank patterns) of n points, n = 2..7 (8); non-trivial = pattern with at least one "
+RULE = ("all weak orderings (dense rank patterns) of n points, n = 2..7 (8), plus all words over three values for n = 8..9 (11); non-trivial = pattern with at least one "
         "tie and S != 0; states = patterns, transitions = (parent pattern -> pattern) edges")
 ASSUMPTIONS = [
     "float32 outputs are compared with the float32 rounding of the exact value within 1 ulp (p-value: 1e-6 relative + 1e-7 absolute)",
@@ -174,6 +174,9 @@ def long_series(ctx):
             np.where(t % 2 == 0, t, n - t),     # interleaved up/down
             ((t * 7919) % 101) - 50,            # pseudo-random with ties
             np.full(n, 7) + (t == n - 1),       # constant except the last point
+            (t >= (7 * n) // 10).astype(int),   # long plateau then a step up (median slope 0, significant S)
+            5 - 3 * (t >= (3 * n) // 10).astype(int),   # short plateau then a step down
+            np.minimum(t // (n // 3 + 1), 1) * 4 + (t > n - 3),   # two plateaus and a tail
         ]
     for x in rows:
         x = np.asarray(x, dtype=np.int64)
@@ -181,6 +184,24 @@ def long_series(ctx):
         run_entries(x[None, :], ctx, sub, [ref], entries=("gu_i16", "gu_f32", "gu_nd", "1d"))
         ctx.count(sub, evaluations=4, nontrivial=1, states=1, traces_validated_against_impl=1)
     ctx.sample(sub, {"n": [50, 200], "families": ["ramp+plateaus", "sawtooth", "interleaved", "pseudo-random", "constant+1"]})
+
+
+def _tie_heavy_task(task, p):
+    """All words over three values: many ties, long plateaus (series with a zero median slope but significant S)."""
+    n, lo, hi = task
+    st = _st()
+    sub = "tie_heavy"
+    idx = sse.word_indices(3, n)[lo:hi]
+    X = np.asarray([0, 1, 5])[idx]
+    o = [np.asarray(a) for a in st._mann_kendall_trend_gu(X.astype("int16"))]
+    nontriv = 0
+    for i in range(X.shape[0]):
+        ref = ref_mk([int(v) for v in X[i]])
+        compare(X[i], (o[0][i], o[1][i], o[2][i], o[3][i]), ref, p, sub, "gu_i16")
+        nontriv += int(ref[4] != 0 and ref[3] == 0)
+    p.count(sub, evaluations=X.shape[0], states=X.shape[0], traces_validated_against_impl=X.shape[0], nontrivial=nontriv)
+    if lo == 0:
+        p.sample(sub, {"n": n, "alphabet": [0, 1, 5], "example": X[X.shape[0] // 3].tolist()})
 
 
 def accessor(ctx):
@@ -248,6 +269,12 @@ def run(ctx):
         for c in range(nch):
             tasks.append((n, c, nch, scale, shift))
     ctx.pmap(_task, tasks)
+    ttasks = []
+    for n in range(8, (12 if ctx.thorough() else 10)):
+        tot = 3 ** n
+        for lo in range(0, tot, 4096):
+            ttasks.append((n, lo, min(tot, lo + 4096)))
+    ctx.pmap(_tie_heavy_task, ttasks[::-1])
     ctx.note("value_map", f"rank * {scale} + {shift}")
     ctx.note("max_points", maxn)
     long_series(ctx)
